@@ -1,3 +1,4 @@
+pub mod alloc;
 pub mod canon;
 pub mod ctx;
 pub mod rng;
